@@ -80,6 +80,21 @@ func normalize(network Network, proto Protocol, req, resp *dns.Msg, maxMsgSize u
 // truncate makes sure the response is not larger than the specified size.  If
 // it is, the Truncate flag is set to true and answer records are removed.
 func truncate(resp *dns.Msg, size int) {
+	// [dns.Msg.Truncate] leaves a message that ends with a TSIG record as it
+	// is.  A signature cannot survive truncation anyway, so remove it from a
+	// response that doesn't fit, mark the response as truncated, and let the
+	// truncation do the rest of its work.
+	if n := len(resp.Extra); resp.IsTsig() != nil {
+		compress := resp.Compress
+		resp.Compress = true
+		if resp.Len() > size {
+			resp.Extra = resp.Extra[:n-1]
+			resp.Truncated = true
+		}
+
+		resp.Compress = compress
+	}
+
 	resp.Truncate(size)
 
 	// Remove all A records from a truncated response
